@@ -194,6 +194,10 @@ fn judge_single(c: &Case) -> Verdict {
         "ok" => Verdict::pass(&("ok", t)),
         "err" => Verdict::pass("err"),
         "panic" => Verdict::fail_sig(panic_sig(&t), format!("panic: {t}")),
+        // a Sass program may legitimately never finish (`@while` whose condition stays
+        // truthy, e.g. after a one-character deletion in the corpus neighbourhood):
+        // non-return of such an input says nothing about the property
+        "died" if t.starts_with("timeout") && c.src.contains("@while") => Verdict::Trivial,
         "died" => Verdict::fail_sig(
             format!("died:{}", t.replace(|c: char| c.is_ascii_digit(), "")),
             format!("worker process died on an 8 MiB stack: {t}"),
